@@ -45,7 +45,7 @@ def _install_invariant():
 
 
 def gen_layout(rng):
-    kind = rng.choice(['single', 'adjacent', 'gapped', 'overlap', 'top', 'mixed', 'mixed', 'high', 'straddle4g'])
+    kind = rng.choice(['single', 'adjacent', 'gapped', 'overlap', 'top', 'mixed', 'mixed', 'high', 'straddle4g', 'oversized-window'])
     devs = []
     n = 1 if kind == 'single' else rng.randrange(2, 7)
     base = rng.choice([0, 0x10, 0x1000, 0x7FFFFFF0, 0xF0000000])
@@ -103,12 +103,22 @@ def run_shard(spec):
 
     for h in range(spec['histories']):
         kind, devs = gen_layout(rng)
-        hub = MemoryControllerHub.from_memory_list([dict(mem_type='RAM', beginning=b, end=e) for b, e in devs])
-        model = [bytearray(e - b) for b, e in devs]
+        if kind == 'oversized-window':
+            # a controller whose address window is longer than the RAM behind it (built as in the README): the bytes of the
+            # window beyond the RAM behave like the end of a device - nothing stored, nothing grown
+            from armulator.armv6.memory_controller_hub import MemoryController
+            from armulator.armv6.memory_types import RAM
+            hub = MemoryControllerHub()
+            for b, e in devs:
+                hub.memories.append(MemoryController(RAM(max(0, (e - b) - rng.randrange(0, 13))), b, e))
+            model = [bytearray(len(m.mem.memory_array)) for m in hub.memories]
+        else:
+            hub = MemoryControllerHub.from_memory_list([dict(mem_type='RAM', beginning=b, end=e) for b, e in devs])
+            model = [bytearray(e - b) for b, e in devs]
         ops = []
         # pre-fill through the model and the backing arrays identically (position-dependent pattern)
         for di, (b, e) in enumerate(devs):
-            for i in range(e - b):
+            for i in range(len(model[di])):
                 v = ((b + i) * 7 + di * 31 + 1) & 0xFF
                 model[di][i] = v
                 hub.memories[di].mem.memory_array[i] = v
@@ -136,9 +146,10 @@ def run_shard(spec):
                 if mb <= addr < me:
                     hit = j
                     break
-            straddle = hit is not None and addr + size > devs[hit][1]
-            pos = 'unmapped' if hit is None else ('straddle%d' % (devs[hit][1] - addr) if straddle else
-                                                  ('last' if addr + size == devs[hit][1] else
+            dend = (devs[hit][0] + len(model[hit])) if hit is not None else None      # end of the bytes that exist
+            straddle = hit is not None and addr + size > dend
+            pos = 'unmapped' if hit is None else ('straddle%d' % (dend - addr) if straddle else
+                                                  ('last' if addr + size == dend else
                                                    ('first' if addr == devs[hit][0] else 'inside')))
             res['evaluations'] += 1
             opname = 'write' if is_write else 'read'
@@ -173,7 +184,7 @@ def run_shard(spec):
                 elif hit is not None and straddle:
                     off = addr - devs[hit][0]
                     real = hub.memories[hit].mem.memory_array
-                    n_in = devs[hit][1] - addr
+                    n_in = max(0, dend - addr)
                     if len(real) == len(model[hit]):
                         newb = value.to_bytes(size, 'little')[:n_in]
                         if bytes(real[off:]) == newb:
